@@ -1,5 +1,70 @@
-(* C06 -- JSON Schema normalisation. (theorems are added as they are closed; model in Normalize.v) *)
-From Fences Require Import Normalize.
+(* C06 -- JSON Schema normalisation preserves acceptance: the keyword-level laws proved so far.
+   (The end-to-end statement -- x accepted by S iff accepted by normalize(S) -- is decided by the validator oracle and
+   the model/implementation correspondence; the laws below are the places where defects were found and repaired.) *)
+From Fences Require Import Normalize NormShape JsonValid.
+From Coq Require Import String ZArith.
+Local Open Scope list_scope.
+
+(* negation, keyword by keyword: an instance satisfies what the inverter returns exactly when it violates the keyword.
+   Bounds (an excluded bound becomes the opposite inclusive one on numbers) ... *)
+Theorem C06_invert_bounds : forall m x,
+  (alt_valid [(kw "type", JArr [jstr "number"]); (kw "exclusiveMaximum", JNum m)] x <-> ~ kvalid (kw "minimum") (JNum m) x) /\
+  (alt_valid [(kw "type", JArr [jstr "number"]); (kw "exclusiveMinimum", JNum m)] x <-> ~ kvalid (kw "maximum") (JNum m) x) /\
+  (alt_valid [(kw "type", JArr [jstr "number"]); (kw "maximum", JNum m)] x <-> ~ kvalid (kw "exclusiveMinimum") (JNum m) x) /\
+  (alt_valid [(kw "type", JArr [jstr "number"]); (kw "minimum", JNum m)] x <-> ~ kvalid (kw "exclusiveMaximum") (JNum m) x).
+Proof.
+  intros m x. split; [apply invert_minimum|]. split; [apply invert_maximum|]. split; [apply invert_exclusive_minimum|apply invert_exclusive_maximum].
+Qed.
+Print Assumptions C06_invert_bounds.
+
+(* ... string lengths and item counts (the pinned code was off by one here: not(minLength n) was maxLength n) ... *)
+Theorem C06_invert_lengths : forall n x,
+  ((0 < n)%Z -> (alt_valid [(kw "type", JArr [jstr "string"]); (kw "maxLength", JNum (n - 1))] x <-> ~ kvalid (kw "minLength") (JNum n) x)) /\
+  ((n <= 0)%Z -> (alt_valid [(kw "enum", JArr [])] x <-> ~ kvalid (kw "minLength") (JNum n) x)) /\
+  (alt_valid [(kw "type", JArr [jstr "string"]); (kw "minLength", JNum (n + 1))] x <-> ~ kvalid (kw "maxLength") (JNum n) x) /\
+  ((0 < n)%Z -> (alt_valid [(kw "type", jstr "array"); (kw "maxItems", JNum (n - 1))] x <-> ~ kvalid (kw "minItems") (JNum n) x)) /\
+  (alt_valid [(kw "type", jstr "array"); (kw "minItems", JNum (n + 1))] x <-> ~ kvalid (kw "maxItems") (JNum n) x).
+Proof.
+  intros n x. split; [apply invert_min_length|]. split; [apply invert_min_length_0|]. split; [apply invert_max_length|].
+  split; [apply invert_min_items|apply invert_max_items].
+Qed.
+Print Assumptions C06_invert_lengths.
+
+(* ... enum and type (a type given as one string: the pinned code removed its letters) *)
+Theorem C06_invert_enum_type : forall l v x,
+  (alt_valid [(kw "NOT_enum", JArr l)] x <-> ~ kvalid (kw "enum") (JArr l) x) /\
+  (alt_valid [(kw "enum", JArr l)] x <-> ~ kvalid (kw "NOT_enum") (JArr l) x) /\
+  (alt_valid [(kw "type", JArr (pdiff ALL_TYPES (to_list v)))] x <-> ~ kvalid (kw "type") v x).
+Proof. intros l v x. split; [apply invert_enum|]. split; [apply invert_not_enum|apply invert_type]. Qed.
+Print Assumptions C06_invert_enum_type.
+
+(* these keyword sets are what the model of _invert produces *)
+Theorem C06_invert_kw_is : forall m l v,
+  invert_kw (kw "minimum") (JNum m) = Ok (JObj [(kw "type", JArr [jstr "number"]); (kw "exclusiveMaximum", JNum m)]) /\
+  invert_kw (kw "maxLength") (JNum m) = Ok (JObj [(kw "type", JArr [jstr "string"]); (kw "minLength", JNum (m + 1))]) /\
+  invert_kw (kw "minItems") (JNum m) =
+    (if Z.ltb 0 m then Ok (JObj [(kw "type", jstr "array"); (kw "maxItems", JNum (m - 1))]) else Ok (JObj [(kw "enum", JArr [])])) /\
+  invert_kw (kw "enum") (JArr l) = Ok (JObj [(kw "NOT_enum", JArr l)]) /\
+  invert_kw (kw "type") v = Ok (JObj [(kw "type", JArr (pdiff ALL_TYPES (to_list v)))]).
+Proof. intros m l v. repeat split; reflexivity. Qed.
+Print Assumptions C06_invert_kw_is.
+
+(* conjunction: what _merge makes of two keyword sets without properties / prefixItems, key by key ... *)
+Theorem C06_merge_keys : forall a b r, simple a -> simple b -> NoDup (map fst a) -> merge2 a b = Ok r ->
+  forall k, dget k r =
+    match dget k a, dget k b with
+    | Some va, Some vb => match simple_merge k va vb with Some (Ok v) => Some v | _ => Some va end
+    | Some va, None => Some va
+    | None, vb => vb
+    end.
+Proof. exact merge2_get. Qed.
+Print Assumptions C06_merge_keys.
+
+(* ... and for sets of bounds the merged set is satisfied exactly by the instances that satisfy both *)
+Theorem C06_merge_bounds : forall a b r x, bounds_only a -> bounds_only b -> NoDup (map fst a) ->
+  merge2 a b = Ok r -> (dvalid r x <-> dvalid a x /\ dvalid b x).
+Proof. exact merge2_bounds. Qed.
+Print Assumptions C06_merge_bounds.
 
 (* boolean schemas have the two constant normal forms *)
 Theorem C06_bool : forall SV cfg fuel b,
